@@ -44,13 +44,24 @@ class _Dummy(object):
     """payload of a tagged block whose content _init never looks at"""
 
 
-def make_record(desc, idx, clip=0):
+def _shared_dummy():
+    """one payload object for records that are meant to be equal by value"""
+    global _DUMMY
+    if _DUMMY is None:
+        _DUMMY = _Dummy()
+    return _DUMMY
+
+
+_DUMMY = None
+
+
+def make_record(desc, idx, clip=0, name=None):
     from psd_tools.constants import Clipping, Tag
     from psd_tools.psd.layer_and_mask import LayerRecord
     from psd_tools.psd.tagged_blocks import SectionDividerSetting, TaggedBlock
 
     s, n, p, tags = desc
-    r = LayerRecord(name="r%d" % idx)
+    r = LayerRecord(name=("r%d" % idx) if name is None else name)
     r.flags.pixel_data_irrelevant = bool(p)
     r.clipping = Clipping.NON_BASE if clip else Clipping.BASE
     tb = r.tagged_blocks
@@ -58,7 +69,7 @@ def make_record(desc, idx, clip=0):
     # deciding blocks first or last, as the descriptor lists them (dict order must not matter)
     for t in tags:
         key = allt[t]
-        tb[key] = TaggedBlock(key=key, data=_Dummy())
+        tb[key] = TaggedBlock(key=key, data=_Dummy() if name is None else _shared_dummy())
     if s >= 0:
         tb[Tag.SECTION_DIVIDER_SETTING] = TaggedBlock(key=Tag.SECTION_DIVIDER_SETTING, data=SectionDividerSetting(kind=s))
     if n >= 0:
@@ -117,12 +128,12 @@ def ser_tree(group, rid):
     return out
 
 
-def impl_open(descs, clips=None):
+def impl_open(descs, clips=None, names=None):
     """-> (canonical outcome, psd or None, records, channels)"""
     from psd_tools import PSDImage
     from psd_tools.api.psd_image import _build_record_tree
 
-    records = [make_record(d, i, clips[i] if clips else 0) for i, d in enumerate(descs)]
+    records = [make_record(d, i, clips[i] if clips else 0, names[i] if names else None) for i, d in enumerate(descs)]
     data, channels = make_psd(records)
     try:
         psd = PSDImage(data)
@@ -228,8 +239,8 @@ def check_parents(group, ck_fail):
             check_parents(layer, ck_fail)
 
 
-def oracle(ck, descs, clips, out, psd, records, channels, label):
-    inp = {"descs": [list(d[:3]) + [list(d[3])] for d in descs], "clips": clips, "label": label}
+def oracle(ck, descs, clips, out, psd, records, channels, label, names=None):
+    inp = {"descs": [list(d[:3]) + [list(d[3])] for d in descs], "clips": clips, "label": label, "names": names}
     exp = expected_tree(descs)
     if exp[0] == "extra-end":
         if out != [4]:
@@ -252,12 +263,27 @@ def oracle(ck, descs, clips, out, psd, records, channels, label):
     from psd_tools.api.psd_image import _build_record_tree
 
     fr, fc = _build_record_tree(psd)
+    # the SAME record objects, each once, in the original order (identity, not value equality)
+    if len(fr) != n or any(a is not b for a, b in zip(fr, records)):
+        ck.fail("flatten-records-identity", inp, [len(fr)] + [next((i for i, r in enumerate(records) if r is a), -1) for a in fr][:40],
+                [n] + list(range(n))[:40])
     if len(fc) != n or any(a is not b for a, b in zip(fc, channels)):
         ck.fail("flatten-channels", inp, [id(c) for c in fc][:8], "the original channel lists, same order")
     bad = []
     check_parents(psd, bad.append)
     if bad:
         ck.fail("parent-pointer", inp, [getattr(l._record, "name", None) for l in bad[:5]], "every layer's parent is the group that lists it")
+
+
+def save_reopen_check(ck, psd, descs, clips, label, names):
+    inp = {"descs": [list(d[:3]) + [list(d[3])] for d in descs], "clips": clips, "label": label, "names": names}
+    want = names if names else ["r%d" % i for i in range(len(descs))]
+    try:
+        a, b, got = save_reopen_shape(psd)
+        if a != b or got != want:
+            ck.fail("save-reopen-differs", inp, [len(got), b, got][:3], [len(want), a, want])
+    except Exception as e:  # noqa
+        ck.fail("save-reopen-raises", inp, repr(e), "saves and reopens")
 
 
 def save_reopen_shape(psd):
@@ -310,6 +336,48 @@ def gen_structures(ck):
             reps = (4 if thorough else 3) if okb else 1
             for k in range(reps):
                 yield "seq", [decorate(ck, t, force_plain=(k == 0)) for t in seq]
+
+
+def gen_value_equal(ck):
+    """documents whose record lists contain records that are EQUAL BY VALUE (same name, rectangle, flags, blocks) but are
+    distinct objects: identical leaves as siblings, a leaf repeated after a group that holds its twin, identical empty
+    groups, identical group pairs ...: every balanced word up to the tier's length with one name per role, plus variants
+    where only some records coincide.  -> (descs, names)"""
+    thorough = ck.tier == "thorough"
+    rng = ck.rng
+    plain = {"L": (-1, -1, 0, []), "B": (3, -1, 0, []), "E": (1, -1, 0, [])}
+    for n in range(1, (9 if thorough else 8) + 1):
+        for seq in itertools.product("LBE", repeat=n):
+            d, okb = 0, True
+            for t in seq:
+                d += 1 if t == "B" else -1 if t == "E" else 0
+                okb = okb and d >= 0
+            if not (okb and d == 0):
+                continue
+            descs = [plain[t] for t in seq]
+            yield descs, [{"L": "tile", "B": "</Layer group>", "E": "set"}[t] for t in seq]
+            # only two of the records coincide (the rest have their own names)
+            if n >= 2:
+                i, j = sorted(rng.sample(range(n), 2))
+                if seq[i] == seq[j]:
+                    yield descs, ["twin" if k in (i, j) else "r%d" % k for k in range(n)]
+            # value-equal records that carry a deciding block (shared payload) and the flag
+            if "L" in seq and rng.random() < 0.5:
+                t = rng.choice(TABLE_T + TYPE_T + VECTOR_T)
+                yield [(-1, -1, 1, [t]) if x == "L" else plain[x] for x in seq], [{"L": "tile", "B": "</Layer group>", "E": "set"}[x] for x in seq]
+    for _ in range(3000 if thorough else 300):
+        seq, d = [], 0
+        for _k in range(rng.randint(4, 40)):
+            c = rng.random()
+            if c < 0.3 and d < 6:
+                seq.append("B"); d += 1
+            elif c < 0.55 and d > 0:
+                seq.append("E"); d -= 1
+            else:
+                seq.append("L")
+        seq += ["E"] * d
+        pool = ["a", "b"]
+        yield [plain[t] for t in seq], [rng.choice(pool) if t != "B" else "</Layer group>" for t in seq]
 
 
 def gen_random_deep(ck):
@@ -392,7 +460,8 @@ def fixture_descs(path):
 
 
 def in_lit(descs):
-    return "[" + ";".join("(%d,%d,%d,%s)" % (d[0], d[1], d[2], zlist(d[3])) for d in descs) + "]"
+    # an explicit type on the empty list: a chunk in which no record carries a block must still typecheck
+    return "[" + ";".join("(%d,%d,%d,%s)" % (d[0], d[1], d[2], zlist(d[3]) if d[3] else "(@nil Z)") for d in descs) + "]"
 
 
 # ------------------------------------------------------------------ the run
@@ -402,7 +471,8 @@ def run():
     ck.rule = ("record sequences: every word over {leaf, bounding divider, folder record} up to the tier's length (all bracketings, "
                "balanced or not) with random divider encodings (section/nested block, OTHER), artboard keys, deciding blocks and clipping flags; "
                "random nestings up to depth 8 (some 40) incl. missing/extra ends; leaf records over the dispatch classes (systematic + random "
-               "subsets of the 33 deciding keys x pixel_data_irrelevant); the record sequence of every fixture file; "
+               "subsets of the 33 deciding keys x pixel_data_irrelevant); the record sequence of every fixture file; documents with records equal by "
+               "value but distinct as objects (every balanced word with one name per role, twin pairs, random two-name documents), flatten compared by identity; "
                "non-trivial = distinct sequence with at least one group or one deciding block")
     if ck.coq_build(["theories/Tree/Corr.v", "theories/Properties/C08.v"]):
         ck.collect_theorems("C08.v")
@@ -415,7 +485,7 @@ def run():
     ok = reg == allt[6:25] and [issubclass(adjustments.TYPES[k], FillLayer) for k in reg] == [True] * 3 + [False] * 16
     ck.obligations.append(("registry:adjustments.TYPES order = model TABLE_TAGS", ok, "" if ok else "TYPES keys: %r" % reg))
 
-    cases = {"seq": [], "deep": [], "kinds": [], "fixture": []}
+    cases = {"seq": [], "deep": [], "kinds": [], "fixture": [], "dup": []}
     nreopen = 0
     for label, descs in itertools.chain(gen_structures(ck), gen_random_deep(ck), gen_kinds(ck)):
         clips = [int(ck.rng.random() < 0.3) for _ in descs]
@@ -431,14 +501,23 @@ def run():
         # real save + reopen (only documents whose blocks are real SectionDividerSettings, i.e. no dummy payloads)
         if psd is not None and label != "kinds" and all(not d[3] for d in descs) and (nreopen < (20000 if ck.tier == "thorough" else 2500)):
             nreopen += 1
-            try:
-                a, b, names = save_reopen_shape(psd)
-                if a != b or names != ["r%d" % i for i in range(len(descs))]:
-                    ck.fail("save-reopen-differs", {"descs": [list(d[:3]) + [list(d[3])] for d in descs], "clips": clips, "label": label},
-                            [b, names], a)
-            except Exception as e:  # noqa
-                ck.fail("save-reopen-raises", {"descs": [list(d[:3]) + [list(d[3])] for d in descs], "clips": clips, "label": label},
-                        repr(e), "saves and reopens")
+            save_reopen_check(ck, psd, descs, clips, label, None)
+    # records equal by value but distinct as objects
+    ndup = 0
+    for descs, names in gen_value_equal(ck):
+        clips = [0] * len(descs)
+        out, psd, records, channels = impl_open(descs, clips, names)
+        cases["dup"].append(((descs, clips), out))
+        try:
+            oracle(ck, descs, clips, out, psd, records, channels, "dup", names)
+        except Exception as e:  # noqa
+            ck.fail("oracle-raises", {"descs": [list(d[:3]) + [list(d[3])] for d in descs], "clips": clips, "label": "dup", "names": names}, repr(e), "tree can be inspected")
+        ck.count("dup:%s" % ("opened" if out[0] == 0 else "other"))
+        ck.nontriv(("dup", in_lit(descs), tuple(names)))
+        if psd is not None and all(not d[3] for d in descs) and (ck.tier == "thorough" or ndup % 3 == 0):
+            nreopen += 1
+            save_reopen_check(ck, psd, descs, clips, "dup", names)
+        ndup += 1
     ck.count("save-reopen-roundtrips", nreopen)
     ck.sample({"sequence": "".join(role(d) for d in cases["deep"][3][0][0]), "descs": cases["deep"][3][0][0][:6]})
 
@@ -466,7 +545,7 @@ def run():
             ck.nontriv(("fixture", rel))
     ck.count("fixture:files", len(files))
 
-    for label in ("seq", "deep", "kinds", "fixture"):
+    for label in ("seq", "deep", "kinds", "fixture", "dup"):
         bad = ck.correspond(label, "c08_out", IMPORTS, cases[label], lambda a: in_lit(a[0]), chunk=600)
         for i in bad[:3]:
             ck.notes.append("model/implementation differ on %s case %d: %s -> impl %r" % (label, i, in_lit(cases[label][i][0][0])[:300], cases[label][i][1][:60]))
@@ -483,8 +562,14 @@ def replay(path):
     fl = json.load(open(path))
     inp = fl["input"]
     descs = [tuple(d[:3]) + (list(d[3]),) for d in inp["descs"]]
-    out, psd, records, channels = impl_open(descs, inp.get("clips"))
-    print("roles   :", "".join(role(d) for d in descs))
+    out, psd, records, channels = impl_open(descs, inp.get("clips"), inp.get("names"))
+    print("roles   :", "".join(role(d) for d in descs), "| names:", inp.get("names"))
+    if psd is not None:
+        from psd_tools.api.psd_image import _build_record_tree
+
+        fr = _build_record_tree(psd)[0]
+        print("flatten (index of each returned record object in the input, by identity):",
+              [next((i for i, r in enumerate(records) if r is a), -1) for a in fr], "of", len(records))
     print("observed:", out)
     exp = expected_tree(descs)
     print("expected:", exp[0], ser_expected(exp[1]) if exp[0] == "ok" else "")
